@@ -35,7 +35,7 @@ var lastElems = []string{"a", "d", "D", "fmt", "rand", "go", "int", "err", "any"
 
 var stdCollide = []string{"math/rand", "crypto/rand", "math/rand/v2", "text/template", "html/template", "fmt", "os", "io", "net/http", "net/url", "strings", "bytes", "errors", "path", "path/filepath", "go/ast", "go/token", "go/types", "text/scanner", "go/scanner", "encoding/json", "encoding/xml", "io/fs", "testing/fstest", "container/list", "container/heap", "crypto/md5", "hash/crc32", "unicode/utf8", "unicode/utf16", "time", "sort", "sync", "sync/atomic", "math", "math/big", "math/bits", "os/exec", "os/signal", "runtime/debug", "debug/elf", "image/color", "go/build/constraint", "go/constant", "unsafe", "unsafe", "embed"}
 
-var hintNames = []string{"a", "d", "d1", "d2", "fmt", "rand", "foo", "ünï", "X", "pkg", "pkg_d", "pkg_d1", "p_d", "template", "c", "v2", "xy", "go1", "Rand", "q", "C"}
+var hintNames = []string{"a", "d", "d1", "d2", "fmt", "rand", "foo", "ünï", "X", "pkg", "pkg_d", "pkg_d1", "p_d", "template", "c", "v2", "xy", "go1", "Rand", "q", "C", "_", "_"}
 
 var prefixChoices = []string{"", "", "pkg", "p", "_", "ü", "pkg_d"}
 
@@ -92,7 +92,7 @@ func genPathPool(t *rapid.T, pr Profile) string {
 // implementations reject (go/parser rejects them, so format.Source would fail
 // on a file containing one — such strings cannot be import paths at all).
 func genArbPath(t *rapid.T) string {
-	alphabet := []string{"a", "b", "d", "D", "Z", "0", "1", "9", "-", ".", "_", "~", "+", "@", "/", "/", "ü", "日", "Ω", "٣", "é", "ß", "İ", "ǅ", "go", "int", "v2", "²", "½", "Ⅷ", "①", "ⅷ", "x²", "๓", "〇", "ª", "ʰ"}
+	alphabet := []string{"a", "b", "d", "D", "Z", "0", "1", "9", "-", ".", "_", "~", "+", "@", "/", "/", "ü", "日", "Ω", "٣", "é", "ß", "İ", "ǅ", "go", "int", "v2", "²", "½", "Ⅷ", "①", "ⅷ", "x²", "๓", "〇", "ª", "ʰ", "e\u0301", "l\u00b7l", "a\u0308", "\u0301"}
 	n := rapid.IntRange(1, 12).Draw(t, "arblen")
 	sb := strings.Builder{}
 	for i := 0; i < n; i++ {
@@ -156,7 +156,7 @@ func Gen(pr Profile) func(t *rapid.T) Scenario {
 				sc.File.Args = []recipe.Text{recipe.Text(local)}
 			}
 			// the local path itself and near misses join the referenced paths
-			cands := []string{local, local + "/", local + "x", "x" + local, strings.ToUpper(local), strings.ToLower(local), "v/" + local, local + "/sub"}
+			cands := []string{local, local + "/", local + "x", "x" + local, strings.ToUpper(local), strings.ToLower(local), "v/" + local, local + "/sub", "vendor/" + local, "d.e/f/vendor/" + local, local + "/vendor/q"}
 			if i := strings.LastIndex(local, "/"); i > 0 {
 				cands = append(cands, local[:i], local[i+1:])
 			}
@@ -183,11 +183,24 @@ func Gen(pr Profile) func(t *rapid.T) Scenario {
 				seen[""] = true
 			}
 		}
+		if pr.Dots > 0 && rapid.IntRange(0, 3).Draw(t, "vendortwin") == 2 {
+			// a second path that ends like one of the others, behind a vendor element: another package
+			base := rapid.SampledFrom(sc.Paths).Draw(t, "vendorof")
+			if base != "" && base != "C" {
+				for _, v := range []string{"vendor/" + base, "q.r/s/vendor/" + base} {
+					if !seen[v] && rapid.Bool().Draw(t, "vendorkeep") {
+						seen[v] = true
+						sc.Paths = append(sc.Paths, v)
+					}
+				}
+			}
+		}
 		// file ops: a history of hints and settings
 		var ops []recipe.FileOp
 		dots := 0
 		nops := rapid.IntRange(0, 6).Draw(t, "nops")
 		anonOnly := []string{}
+		anonLocal := false
 		for i := 0; i < nops; i++ {
 			kind := rapid.SampledFrom([]string{"ImportName", "ImportAlias", "ImportNames", "Anon", "PackagePrefix", "ImportAlias"}).Draw(t, "opkind")
 			var target string
@@ -233,7 +246,13 @@ func Gen(pr Profile) func(t *rapid.T) Scenario {
 					continue
 				}
 				if target == local {
-					continue // an anonymous import of the File's own path is the caller's explicit wish, not a reference
+					// an anonymous import of the File's own path (an external test package importing the package
+					// under test for its side effects): it is written, as `_`, and changes nothing else
+					if pr.LocalCtor && !anonLocal {
+						anonLocal = true
+						ops = append(ops, recipe.FileOp{Op: "Anon", Args: []recipe.Text{recipe.Text(target)}})
+					}
+					continue
 				}
 				if rapid.Bool().Draw(t, "anonref") {
 					args := []recipe.Text{recipe.Text(target)}
